@@ -366,7 +366,10 @@ fn count_fired(plan: &crate::run::Plan, res: &RunResult, fired: &mut BTreeMap<&'
             Op::Pid { .. } => bump("pid_change"),
             Op::Frag { .. } => bump("heap_fragment"),
             Op::FsWipe => bump("fs_wipe"),
-            Op::Expand { w, input } => {
+            Op::Expand { w, input, fmt } => {
+                if *fmt != 0 {
+                    bump("reformat");
+                }
                 if let Some(e) = ev.peek() {
                     if e.world == wi && e.op == oi {
                         ev.next();
